@@ -45,22 +45,61 @@ func c06(e *Env) {
 	c.Floor("score-rendering", 3)
 }
 
+// scoreFuncs: the exported Score methods plus, transitively, every unexported
+// in-package function with one float64 result whose call stands in return
+// position of one of them (the score helpers). Helpers that only compute an
+// operand of the equation (an impact sub-score, say) are not score functions:
+// their results are not returned to the user, and the rounding helper applied
+// afterwards is what puts the result on the grid.
 func (k *scoreKit) scoreFuncs() []*types.Func {
+	if k.scoreFns != nil {
+		return k.scoreFns
+	}
 	var out []*types.Func
-	for _, l := range k.levels {
-		if m := l.Method("Score"); m != nil {
-			out = append(out, m)
+	seen := map[*types.Func]bool{}
+	var add func(f *types.Func)
+	add = func(f *types.Func) {
+		if f == nil || seen[f] {
+			return
 		}
-		// unexported score helpers: methods of the level returning one float64
-		for j := 0; j < l.Named.NumMethods(); j++ {
-			m := l.Named.Method(j)
-			sig := m.Type().(*types.Signature)
-			if !m.Exported() && sig.Results().Len() == 1 && isFloat64(sig.Results().At(0).Type()) {
-				out = append(out, m)
+		seen[f] = true
+		out = append(out, f)
+		sf := k.e.P.SSAFunc(f)
+		if sf == nil || len(sf.Blocks) == 0 {
+			return
+		}
+		ls, err := ir.Leaves(sf, ir.LeafOptions{})
+		if err != nil {
+			return
+		}
+		for _, lf := range ls {
+			if len(lf.Ret) != 1 || lf.Ret[0].Op != ir.OCall {
+				continue
+			}
+			g, ok := lf.Ret[0].Obj.(*types.Func)
+			if !ok || g.Pkg() != k.pkg || g.Exported() || k.isRounder(g) {
+				continue
+			}
+			sig := g.Type().(*types.Signature)
+			if sig.Results().Len() == 1 && isFloat64(sig.Results().At(0).Type()) {
+				add(g)
 			}
 		}
 	}
+	for _, l := range k.levels {
+		add(l.Method("Score"))
+	}
+	k.scoreFns = out
 	return out
+}
+
+func (k *scoreKit) isRounder(g *types.Func) bool {
+	for _, f := range k.round {
+		if f == g {
+			return true
+		}
+	}
+	return false
 }
 
 func (e *Env) returnDiscipline(k *scoreKit) {
